@@ -806,6 +806,53 @@ class StrPasteGen:
         return lines
 
 
+# ------------------------------------------------------------------ pp-numbers (6.4.8) glued to names and operators
+class PPNumGen:
+    """character sequences built from every ingredient of the pp-number grammar -- digits, `.`, identifier
+    characters, e+ e- E+ E- p+ p- P+ P- after decimal AND hexadecimal beginnings, suffixes, and spellings that
+    are no valid constants but single pp-tokens (0xe+x, 1.2.3, 1e+, .5e-x, 12_ab) -- written without white space
+    next to macro names and + - operators.  Where the pp-number ends decides which identifiers are separate
+    tokens and therefore macro-replaced; the result is observed directly, through # and through
+    macro-replacement followed by #.  The case is the text; its tokens are those of the tokenizer above, which
+    the check compares with the Lean function `ppNumberLen` (proved maximal munch of the 6.4.8 grammar)."""
+    STARTS = ["0", "1", "9", "12", ".5", ".0", "0x", "0X", "0xe", "0xE", "0x1", "0xf", "1e", "1E", "0xep", "1.", "0b1"]
+    ATOMS = ["e+", "e-", "E+", "E-", "p+", "p-", "P+", "P-", "x", "y", "e", "p", "ab", "_ab", "_", "1", "9", "0",
+             ".", "f", "u", "L", "ll", "+x", "-y", "+e", "-ab", "+", "-", "+1", "-.5", "e+x", "E-y", "p+ab", "..", "x+"]
+
+    def __init__(self, rng):
+        self.r = rng
+        self.stats = {}
+        self.chunks = []
+
+    def hit(self, k):
+        self.stats[k] = self.stats.get(k, 0) + 1
+
+    def chunk(self):
+        r = self.r
+        c = r.choice(self.STARTS) if r.chance(5, 6) else r.choice(["x", "ab", ".", "e", "+", "-"])
+        for _ in range(r.below(5)):
+            c += r.choice(self.ATOMS)
+        self.chunks.append(c)
+        m = _NUM.match(c)
+        if m and m.end() < len(c):
+            self.hit("number_ends_inside_chunk")
+        if m and re.search(r"[eEpP][+-]", m.group(0)):
+            self.hit("hex_exponent_sign" if c[:2] in ("0x", "0X") else "exponent_sign")
+        return c
+
+    def gen_case(self):
+        r = self.r
+        text = ("#define x 5\n#define y (7)\n#define e 2\n#define ab 3\n#define p 9\n"
+                "#define S(a) #a\n#define XS(a) S(a)\n")
+        for _ in range(1 + r.below(3)):
+            body = self.chunk()
+            for _ in range(r.below(3)):
+                body += r.choice(["", " ", "+", "-", " + ", "*"]) + self.chunk()
+            form = r.below(4)
+            text += {0: body + ";", 1: "S(" + body + ");", 2: "XS(" + body + ");", 3: "[" + body + "]"}[form] + "\n"
+        return parse_source(text)
+
+
 # ------------------------------------------------------------------ argument lists closed outside a replacement list
 class OpenCallGen:
     """an invocation `callee ( args )` is cut at a random place: the first part ends the replacement list of
